@@ -342,3 +342,84 @@ pub fn c42_part_a(check: &Check, args: &Args) {
         }
     });
 }
+
+/// C42, sending side in a real swarm: a node hands a record that has an expiry to a peer through the public API
+/// (`put_record_to`, the caching step after a `get_record`; `put_record` for its own records) and the raw peer reads
+/// the PUT_VALUE off the wire: its record must carry a ttl > 0 whenever the record given to the API had an expiry
+/// (local record TTL configured or not).
+pub fn c42_part_c(check: &Check, args: &Args) {
+    let cases = if args.extra.contains_key("budget") { 12 } else { args.tier.pick(300u64, 20_000) };
+    vmon::par_cases_timed(check, cases, args.threads, args.tier.pick(20.0, 240.0), |case_idx, rng: &mut Rng| {
+        let cfg_ttl = [None, Some(3u64), Some(100)][(case_idx % 3) as usize];
+        let life_s = [2u64, 50, 4000][((case_idx / 3) % 3) as usize];
+        let via_put_to = (case_idx / 9) % 2 == 0;
+        let mut rig = Rig::new(rng, cfg_ttl.map(Duration::from_secs), None, 1, false);
+        if !rig.connect_all() {
+            check.inconclusive("setup not quiescent");
+            return;
+        }
+        let p1 = rig.net.peer(1);
+        let key = format!("out{case_idx}").into_bytes();
+        let rec = kad::Record { key: kad::RecordKey::new(&key), value: b"v".to_vec(), publisher: None, expires: if via_put_to { Some(Instant::now() + Duration::from_secs(life_s)) } else { None } };
+        let had_expiry = rec.expires.is_some() || cfg_ttl.is_some();
+        if via_put_to {
+            rig.kad().put_record_to(rec, std::iter::once(p1), kad::Quorum::One);
+        } else {
+            // own record: its expiry comes from the configured record TTL (none => legitimately sent without)
+            rig.kad().add_address(&p1, mem(101));
+            if rig.kad().put_record(rec, kad::Quorum::One).is_err() {
+                check.inconclusive("put_record refused");
+                return;
+            }
+        }
+        rig.net.touch(0);
+        // the query may first look for closest peers (FIND_NODE to the raw peer): answer nothing, just collect frames
+        let mut seen_put: Option<Msg> = None;
+        for _ in 0..6 {
+            if !rig.run() {
+                check.inconclusive("not quiescent");
+                return;
+            }
+            let ctl = rig.raw[1].clone().unwrap();
+            let p0 = rig.net.peer(0);
+            for st in ctl.find_all(&p0, KAD, true) {
+                for f in st.take_frames() {
+                    if let Some(m) = Msg::decode(&f) {
+                        let ty = m.get_varint(1).unwrap_or(0);
+                        if ty == 0 && m.get_bytes(3).is_some() {
+                            seen_put = Some(m);
+                        } else if ty == 4 {
+                            // FIND_NODE: reply with an empty closer-peers list so that the query moves on
+                            st.write(vmon::pb::frame(&Msg::new().varint(1, 4).encode()));
+                        }
+                    }
+                }
+            }
+            if seen_put.is_some() {
+                break;
+            }
+            rig.net.touch(1);
+        }
+        let Some(m) = seen_put else {
+            check.inconclusive("no PUT_VALUE reached the raw peer");
+            return;
+        };
+        let recm = m.get_bytes(3).and_then(Msg::decode);
+        let ttl = recm.as_ref().and_then(|r| r.get_varint(777)).unwrap_or(0);
+        let wit = json!({"case": case_idx, "api": if via_put_to { "put_record_to" } else { "put_record" }, "record_ttl_s": cfg_ttl, "record_expires_in_s": if via_put_to { Some(life_s) } else { None }, "ttl_on_wire": ttl});
+        if via_put_to && ttl == 0 {
+            check.violation("expiring-record-sent-with-ttl-0:put_record_to", format!("record handed to put_record_to with an expiry {life_s}s ahead reached the wire without ttl (local record_ttl {cfg_ttl:?})"), wit.clone());
+        }
+        if !via_put_to && cfg_ttl.is_some() && ttl == 0 {
+            check.violation("expiring-record-sent-with-ttl-0:put_record", format!("own record published with record_ttl {cfg_ttl:?} reached the wire without ttl"), wit.clone());
+        }
+        if via_put_to && ttl > life_s {
+            check.violation("record-sent-with-longer-ttl-than-its-expiry", format!("record expiring in {life_s}s sent with ttl {ttl}s"), wit.clone());
+        }
+        check.case(Sig::new().u64(case_idx % 18).u64(rig.net.trace.0).0, had_expiry);
+        check.count("part_c_put_value_requests_read_off_the_wire", 1);
+        if check.want_sample() && case_idx % 5 == 0 {
+            check.sample(wit);
+        }
+    });
+}
